@@ -215,10 +215,12 @@ def benign_values(n):
 ALPHA_C06 = [
     "abcdefghijklmnopqrstuvwxyz0123456789",
     '"', "\\", ",", "[]", ";", "#", "{}", "\n", "éü€日𝔘", " ", ":*?@.-_/", "'",
+    "\u0301\u200b\u200d\u202e\ufeff\u00a0\u2028\u2029\u0085\x0b\x0c\x1c\x7f\u212b\ufb01\U0001f600\u0130\u00df\u0131\t\r",
 ]
 ALPHA_C19 = [
     "abcdefghijklmnopqrstuvwxyz0123456789",
     ",", " ", "[]", "éü€日𝔘", ":*?@.-_/;#{}",
+    "\u0301\u200b\u200d\u202e\ufeff\u00a0\u212b\ufb01\U0001f600\u0130\u00df\u0131",
 ]
 ALPHA_BENIGN = ["abcdefghijklmnopqrstuvwxyz0123456789", "@.-_"]
 NEAR_KEYWORDS = ["notes", "not", "nothing-special", "notification-id", "sizeable", "exists-x", "bodyguard", "truefalse", "x-envelope", "Not", "NOTE"]
